@@ -1,1 +1,407 @@
-/-! # C14 — property theorems (not built yet) -/
+import PysphVerif.Lemmas.Interp
+/-!
+# C14 — interpolation of particle data obeys its defining formulas
+
+Property theorems only (helper lemmas live in `Lemmas/Interp.lean`).  They are
+about `Model/Interp.lean`, which transcribes the interpolation equations of
+`pysph/tools/interpolator.py` as left folds over the neighbour list a
+destination point sees, and the `Interpolator`/`SPHEvaluator` bindings as a state
+machine; the model is tied to the compiled code by bit-exact differential
+execution (`harness/c14.py`).
+
+All numeric statements hold over every linearly ordered field `α`, every
+neighbour list (any length, any order, any number of source arrays
+concatenated), arbitrary kernel values `w` (the kernel is a parameter: sign
+hypotheses are stated where they are needed), arbitrary masses/densities, and
+the threshold `tol` (`1e-12` in the code).  `sumOver g nbrs` is `Σ_j g j`.
+-/
+set_option linter.unusedSectionVars false
+set_option linter.unusedVariables false
+namespace PysphVerif.C14
+open PysphVerif.Interp
+
+variable {α : Type} [Field α] [LinearOrder α] [IsStrictOrderedRing α]
+
+/-! ## Shepard -/
+
+/-- 'shepard' returns `Σ w f / Σ w` when `Σ w` exceeds the threshold and the
+un-normalised `Σ w f` otherwise. -/
+theorem shepard_is_weighted_mean (tol : α) (nbrs : List (Nbr α)) :
+    shepard tol nbrs =
+      if tol < sumOver (fun nb => nb.w) nbrs then
+        sumOver (fun nb => nb.w * nb.f) nbrs / sumOver (fun nb => nb.w) nbrs
+      else sumOver (fun nb => nb.w * nb.f) nbrs := by
+  simp [shepard, normPost, shepard_fold]
+
+/-- With non-negative kernel values the Shepard value lies between the smallest
+and the largest of the CONTRIBUTING source values (those with `w > 0`). -/
+theorem weighted_mean_bounds (tol lo hi : α) (nbrs : List (Nbr α)) (htol : 0 ≤ tol)
+    (hw : ∀ nb ∈ nbrs, 0 ≤ nb.w)
+    (hden : tol < sumOver (fun nb => nb.w) nbrs)
+    (hf : ∀ nb ∈ nbrs, 0 < nb.w → lo ≤ nb.f ∧ nb.f ≤ hi) :
+    lo ≤ shepard tol nbrs ∧ shepard tol nbrs ≤ hi := by
+  rw [shepard_is_weighted_mean, if_pos hden]
+  exact weighted_mean_between (fun nb => nb.w) (fun nb => nb.f) nbrs lo hi hw hf
+    (lt_of_le_of_lt htol hden)
+
+/-- A field that is constant on the contributing sources is reproduced exactly
+(no sign condition on the kernel). -/
+theorem shepard_constant (tol c : α) (nbrs : List (Nbr α)) (htol : 0 ≤ tol)
+    (hden : tol < sumOver (fun nb => nb.w) nbrs)
+    (hf : ∀ nb ∈ nbrs, nb.w ≠ 0 → nb.f = c) :
+    shepard tol nbrs = c := by
+  rw [shepard_is_weighted_mean, if_pos hden,
+    weighted_sum_const (fun nb => nb.w) (fun nb => nb.f) nbrs c hf]
+  have : sumOver (fun nb => nb.w) nbrs ≠ 0 := ne_of_gt (lt_of_le_of_lt htol hden)
+  field_simp
+
+/-- Where no source is in range (no neighbour at all, or every kernel value
+zero) the result is zero — for all five scalar accumulations. -/
+theorem zero_when_no_source_in_range (tol : α) (nbrs : List (Nbr α)) (htol : 0 ≤ tol)
+    (hw : ∀ nb ∈ nbrs, nb.w = 0) :
+    shepard tol nbrs = 0 ∧ sph nbrs = 0 ∧ splash nbrs = 0 ∧ splashNorm tol nbrs = 0 := by
+  have h1 : sumOver (fun nb => nb.w) nbrs = 0 := sumOver_zero hw
+  have h2 : sumOver (fun nb => nb.w * nb.f) nbrs = 0 :=
+    sumOver_zero (fun nb hnb => by simp [hw nb hnb])
+  have h3 : sumOver (fun nb => nb.m / nb.rho * nb.w * nb.f) nbrs = 0 :=
+    sumOver_zero (fun nb hnb => by simp [hw nb hnb])
+  have h4 : sumOver (fun nb => nb.m / nb.rho * nb.w) nbrs = 0 :=
+    sumOver_zero (fun nb hnb => by simp [hw nb hnb])
+  refine ⟨?_, ?_, ?_, ?_⟩
+  · rw [shepard_is_weighted_mean, h1, h2]; simp
+  · unfold sph
+    rw [foldl_step_eq sphStep (fun nb => nb.m / nb.rho * nb.w * nb.f) (fun _ _ => rfl), h3]; simp
+  · unfold splash
+    rw [foldl_step_eq splashStep (fun nb => nb.m / nb.rho * nb.w * nb.f) (fun _ _ => rfl), h3]
+    simp
+  · simp [splashNorm, normPost, splashNorm_fold, h3, h4]
+
+/-- Below the threshold the (un-normalised) Shepard value is at most
+`tol · max|f|`: "zero" to the code's own accuracy. -/
+theorem shepard_small_below_threshold (tol F : α) (nbrs : List (Nbr α))
+    (hw : ∀ nb ∈ nbrs, 0 ≤ nb.w) (hF0 : 0 ≤ F) (hF : ∀ nb ∈ nbrs, |nb.f| ≤ F)
+    (hden : ¬ tol < sumOver (fun nb => nb.w) nbrs) :
+    |shepard tol nbrs| ≤ tol * F := by
+  rw [shepard_is_weighted_mean, if_neg hden]
+  have hub : sumOver (fun nb => nb.w * nb.f) nbrs ≤ sumOver (fun nb => nb.w * F) nbrs :=
+    sumOver_le (fun nb hnb => mul_le_mul_of_nonneg_left
+      (le_trans (le_abs_self _) (hF nb hnb)) (hw nb hnb))
+  have hlb : sumOver (fun nb => nb.w * (-F)) nbrs ≤ sumOver (fun nb => nb.w * nb.f) nbrs :=
+    sumOver_le (fun nb hnb => mul_le_mul_of_nonneg_left
+      (by have := hF nb hnb; have := neg_abs_le nb.f; linarith) (hw nb hnb))
+  have e1 : sumOver (fun nb => nb.w * F) nbrs = F * sumOver (fun nb => nb.w) nbrs := by
+    rw [← sumOver_mul_left]; exact sumOver_congr (fun nb _ => by ring)
+  have e2 : sumOver (fun nb => nb.w * (-F)) nbrs = -(F * sumOver (fun nb => nb.w) nbrs) := by
+    rw [← neg_mul, ← sumOver_mul_left]; exact sumOver_congr (fun nb _ => by ring)
+  have hW : 0 ≤ sumOver (fun nb => nb.w) nbrs := sumOver_nonneg hw
+  have hle : sumOver (fun nb => nb.w) nbrs ≤ tol := not_lt.mp hden
+  rw [abs_le]
+  rw [e1] at hub
+  rw [e2] at hlb
+  constructor
+  · have : F * sumOver (fun nb => nb.w) nbrs ≤ tol * F := by
+      rw [mul_comm]; exact mul_le_mul_of_nonneg_right hle hF0
+    linarith
+  · have : F * sumOver (fun nb => nb.w) nbrs ≤ tol * F := by
+      rw [mul_comm]; exact mul_le_mul_of_nonneg_right hle hF0
+    linarith
+
+/-! ## sph, splash, splash_norm: the documented sums -/
+
+/-- 'sph': `Σ_j (m_j/ρ_j) W_ij f_j` -/
+theorem sph_is_documented_sum (nbrs : List (Nbr α)) :
+    sph nbrs = sumOver (fun nb => nb.m / nb.rho * nb.w * nb.f) nbrs := by
+  unfold sph
+  rw [foldl_step_eq sphStep (fun nb => nb.m / nb.rho * nb.w * nb.f) (fun _ _ => rfl)]; ring
+
+/-- 'splash': `Σ_j (m_j/ρ_j) W(r_ij, h_i) f_j` (the record's `w` is `WI`) -/
+theorem splash_is_documented_sum (nbrs : List (Nbr α)) :
+    splash nbrs = sumOver (fun nb => nb.m / nb.rho * nb.w * nb.f) nbrs := by
+  unfold splash
+  rw [foldl_step_eq splashStep (fun nb => nb.m / nb.rho * nb.w * nb.f) (fun _ _ => rfl)]; ring
+
+/-- 'splash_norm': `Σ_j V_j W(r_ij,h_j) f_j / Σ_j V_j W(r_ij,h_j)` above the
+threshold, the un-normalised sum otherwise -/
+theorem splash_norm_is_documented_sum (tol : α) (nbrs : List (Nbr α)) :
+    splashNorm tol nbrs =
+      if tol < sumOver (fun nb => nb.m / nb.rho * nb.w) nbrs then
+        sumOver (fun nb => nb.m / nb.rho * nb.w * nb.f) nbrs /
+          sumOver (fun nb => nb.m / nb.rho * nb.w) nbrs
+      else sumOver (fun nb => nb.m / nb.rho * nb.w * nb.f) nbrs := by
+  simp [splashNorm, normPost, splashNorm_fold]
+
+/-- 'splash_norm' is a weighted mean too: with non-negative weights `V_j W_j` it
+stays between the extreme contributing values. -/
+theorem splash_norm_bounds (tol lo hi : α) (nbrs : List (Nbr α)) (htol : 0 ≤ tol)
+    (hw : ∀ nb ∈ nbrs, 0 ≤ nb.m / nb.rho * nb.w)
+    (hden : tol < sumOver (fun nb => nb.m / nb.rho * nb.w) nbrs)
+    (hf : ∀ nb ∈ nbrs, 0 < nb.m / nb.rho * nb.w → lo ≤ nb.f ∧ nb.f ≤ hi) :
+    lo ≤ splashNorm tol nbrs ∧ splashNorm tol nbrs ≤ hi := by
+  rw [splash_norm_is_documented_sum, if_pos hden]
+  exact weighted_mean_between (fun nb => nb.m / nb.rho * nb.w) (fun nb => nb.f) nbrs lo hi hw hf
+    (lt_of_le_of_lt htol hden)
+
+/-- the density 'order1' first recomputes for every source particle:
+`ρ_j = Σ_k m_k W_jk` -/
+theorem summation_density_is_sum (nbrs : List (Nbr α)) :
+    summationDensity nbrs = sumOver (fun nb => nb.m * nb.w) nbrs := by
+  unfold summationDensity
+  rw [foldl_step_eq rhoStep (fun nb => nb.m * nb.w) (fun _ _ => rfl)]; ring
+
+/-! ## the value depends only on the set of in-range sources -/
+
+/-- all scalar results in terms of sums (used below) -/
+theorem results_as_sums (tol : α) (nbrs : List (Nbr α)) :
+    shepard tol nbrs = normPost tol ⟨sumOver (fun nb => nb.w * nb.f) nbrs,
+      sumOver (fun nb => nb.w) nbrs⟩ ∧
+    splashNorm tol nbrs = normPost tol ⟨sumOver (fun nb => nb.m / nb.rho * nb.w * nb.f) nbrs,
+      sumOver (fun nb => nb.m / nb.rho * nb.w) nbrs⟩ := by
+  simp [shepard, splashNorm, shepard_fold, splashNorm_fold]
+
+/-- The order in which the neighbour structure hands out the neighbours (and the
+order of the source arrays) does not matter. -/
+theorem neighbour_order_irrelevant (tol : α) (d : Pos α) {l1 l2 : List (Nbr α)}
+    (h : l1.Perm l2) :
+    shepard tol l1 = shepard tol l2 ∧ sph l1 = sph l2 ∧ splash l1 = splash l2 ∧
+    splashNorm tol l1 = splashNorm tol l2 ∧
+    (∀ r c, momentEntry d l1 r c = momentEntry d l2 r c) ∧
+    (∀ r, psphEntry l1 r = psphEntry l2 r) := by
+  refine ⟨?_, ?_, ?_, ?_, ?_, ?_⟩
+  · rw [(results_as_sums tol l1).1, (results_as_sums tol l2).1, sumOver_perm _ h, sumOver_perm _ h]
+  · rw [sph_is_documented_sum, sph_is_documented_sum, sumOver_perm _ h]
+  · rw [splash_is_documented_sum, splash_is_documented_sum, sumOver_perm _ h]
+  · rw [(results_as_sums tol l1).2, (results_as_sums tol l2).2, sumOver_perm _ h, sumOver_perm _ h]
+  · intro r c; rw [momentEntry_eq, momentEntry_eq, sumOver_perm _ h]
+  · intro r; rw [psphEntry_eq, psphEntry_eq, sumOver_perm _ h]
+
+/-- Sources outside the kernel support (`w = 0`) contribute nothing: visiting
+more candidates than necessary, or fewer as long as every source with `w ≠ 0`
+is visited, gives the same value. -/
+theorem out_of_range_sources_irrelevant (tol : α) (nbrs : List (Nbr α)) :
+    let inRange := nbrs.filter (fun nb => decide (nb.w ≠ 0))
+    shepard tol inRange = shepard tol nbrs ∧ sph inRange = sph nbrs ∧
+    splash inRange = splash nbrs ∧ splashNorm tol inRange = splashNorm tol nbrs := by
+  have hz : ∀ (g : Nbr α → α), (∀ nb, nb.w = 0 → g nb = 0) →
+      sumOver g (nbrs.filter (fun nb => decide (nb.w ≠ 0))) = sumOver g nbrs := by
+    intro g hg
+    apply sumOver_filter
+    intro nb _ hk
+    exact hg nb (by simpa using hk)
+  refine ⟨?_, ?_, ?_, ?_⟩
+  · rw [(results_as_sums tol _).1, (results_as_sums tol nbrs).1,
+      hz _ (fun nb h => by simp [h]), hz _ (fun nb h => h)]
+  · rw [sph_is_documented_sum, sph_is_documented_sum, hz _ (fun nb h => by simp [h])]
+  · rw [splash_is_documented_sum, splash_is_documented_sum, hz _ (fun nb h => by simp [h])]
+  · rw [(results_as_sums tol _).2, (results_as_sums tol nbrs).2,
+      hz _ (fun nb h => by simp [h]), hz _ (fun nb h => by simp [h])]
+
+/-- Several source arrays: every sum is the sum of the per-array sums (no
+array's contribution can be missing from the defined value). -/
+theorem source_arrays_add_up (g : Nbr α → α) (perArray : List (List (Nbr α))) :
+    sumOver g perArray.flatten = (perArray.map (sumOver g)).sum := by
+  induction perArray with
+  | nil => simp
+  | cons l ls ih => simp [sumOver_append, ih]
+
+/-! ## order1 -/
+
+/-- `Σ_{c < n} M[r][c]·x[c]` for the moment matrix of destination `d` -/
+def momentRow (d : Pos α) (nbrs : List (Nbr α)) (n r : Nat) (x : Nat → α) : α :=
+  ((List.range n).map (fun c => momentEntry d nbrs r c * x c)).sum
+
+/-- value and gradient of the affine field `a + g·x` at `d`, as the unknown
+vector `(f(d), ∂x f, ∂y f, ∂z f)` -/
+def affineSol (a : α) (g : Nat → α) (d : Pos α) : Nat → α
+  | 0 => a + g 0 * d.x + g 1 * d.y + g 2 * d.z
+  | k + 1 => g k
+
+/-- The right-hand side 'order1' accumulates for an affine field IS the moment
+matrix applied to (value, gradient) of that field at the destination — for every
+kernel, every neighbour set, every choice of volumes `m/ρ`. -/
+theorem order1_system_of_affine_field (d : Pos α) (nbrs : List (Nbr α)) (a : α) (g : Nat → α)
+    (hf : ∀ nb ∈ nbrs, nb.f = a + g 0 * nb.sx + g 1 * nb.sy + g 2 * nb.sz) (r : Nat) :
+    psphEntry nbrs r = momentRow d nbrs 4 r (affineSol a g d) := by
+  have key : ∀ nb ∈ nbrs, psphTerm r nb =
+      momentTerm d r 0 nb * affineSol a g d 0 + momentTerm d r 1 nb * g 0 +
+      momentTerm d r 2 nb * g 1 + momentTerm d r 3 nb * g 2 := by
+    intro nb hnb
+    apply psphTerm_affine
+    rw [hf nb hnb]
+    simp only [affineSol, xij]
+    ring
+  rw [psphEntry_eq, sumOver_congr key]
+  simp only [momentRow, momentEntry_eq, List.range_succ, List.range_zero, List.map_append,
+    List.map_cons, List.map_nil, List.nil_append, List.sum_append, List.sum_cons, List.sum_nil,
+    affineSol]
+  rw [sumOver_add, sumOver_add, sumOver_add]
+  have e : ∀ (c : Nat) (v : α), sumOver (fun nb => momentTerm d r c nb * v) nbrs =
+      sumOver (momentTerm d r c) nbrs * v := by
+    intro c v
+    rw [mul_comm, ← sumOver_mul_left]; exact sumOver_congr (fun nb _ => by ring)
+  rw [e, e, e, e]
+  ring
+
+/-- In `dim` dimensions only the leading `(dim+1)×(dim+1)` block is solved; for
+a field that does not vary in the unused directions the truncated system holds
+as well. -/
+theorem order1_truncated_system (d : Pos α) (nbrs : List (Nbr α)) (a : α) (g : Nat → α)
+    (hf : ∀ nb ∈ nbrs, nb.f = a + g 0 * nb.sx + g 1 * nb.sy + g 2 * nb.sz)
+    (dim : Nat) (hdim : dim ≤ 3) (hg : ∀ k, dim ≤ k → g k = 0) (r : Nat) :
+    psphEntry nbrs r = momentRow d nbrs (dim + 1) r (affineSol a g d) := by
+  rw [order1_system_of_affine_field d nbrs a g hf r]
+  have h3 : dim = 0 ∨ dim = 1 ∨ dim = 2 ∨ dim = 3 := by omega
+  rcases h3 with h | h | h | h <;> subst h <;>
+    simp [momentRow, List.range_succ, affineSol, hg]
+
+/-- **order1 reproduces every linear field and its gradient wherever the moment
+matrix is non-singular**: any exact solution `x` of the `(dim+1)`-system the code
+hands to `gj_solve` is (value, gradient) of the field at the destination. -/
+theorem order1_reproduces_linear (d : Pos α) (nbrs : List (Nbr α)) (a : α) (g : Nat → α)
+    (hf : ∀ nb ∈ nbrs, nb.f = a + g 0 * nb.sx + g 1 * nb.sy + g 2 * nb.sz)
+    (dim : Nat) (hdim : dim ≤ 3) (hg : ∀ k, dim ≤ k → g k = 0)
+    (x : Nat → α)
+    (hx : ∀ r < dim + 1, momentRow d nbrs (dim + 1) r x = psphEntry nbrs r)
+    (hns : ∀ y : Nat → α, (∀ r < dim + 1, momentRow d nbrs (dim + 1) r y = 0) →
+      ∀ c < dim + 1, y c = 0) :
+    x 0 = a + g 0 * d.x + g 1 * d.y + g 2 * d.z ∧ ∀ k < dim, x (k + 1) = g k := by
+  have hlin : ∀ r, momentRow d nbrs (dim + 1) r (fun c => x c - affineSol a g d c) =
+      momentRow d nbrs (dim + 1) r x - momentRow d nbrs (dim + 1) r (affineSol a g d) := by
+    intro r
+    unfold momentRow
+    generalize List.range (dim + 1) = L
+    induction L with
+    | nil => simp
+    | cons c cs ih => simp only [List.map_cons, List.sum_cons, ih]; ring
+  have hy := hns (fun c => x c - affineSol a g d c) (by
+    intro r hr
+    rw [hlin, hx r hr, order1_truncated_system d nbrs a g hf dim hdim hg r]; ring)
+  constructor
+  · have := hy 0 (by omega)
+    simp only [affineSol] at this
+    linarith
+  · intro k hk
+    have := hy (k + 1) (by omega)
+    simp only [affineSol] at this
+    linarith
+
+/-! ## bindings: interpolate always works on the latest rebinding -/
+
+/-- After ANY history of `set_interpolation_points` / `update_particle_arrays` /
+`update` / in-place changes following construction, `interpolate` fills, evaluates
+and has binned exactly the arrays of the latest `update_particle_arrays` (or of
+the constructor) plus the points object of the latest `set_interpolation_points`,
+and returns the values of that points object. -/
+theorem bindings_current (arrays : List Nat) (p : Nat) (ops : List Op)
+    (hops : ∀ op ∈ ops, op.isInterp = true) :
+    let r := interpolateReads (run (init arrays p) ops)
+    r.filled = lastArrays arrays ops ∧
+    r.result = lastPts p ops ∧
+    r.evaluated = lastArrays arrays ops ++ [lastPts p ops] ∧
+    r.binned = lastArrays arrays ops ++ [lastPts p ops] := by
+  have hi := init_spec arrays p
+  have hb := run_bound (init arrays p) ops hops hi.1
+  have hap := run_arrays_pts (init arrays p) ops hops
+  rw [hi.2.2.1, hi.2.2.2] at hap
+  obtain ⟨h1, h2, _⟩ := hb
+  simp only [interpolateReads]
+  refine ⟨hap.1, hap.2, ?_, ?_⟩
+  · rw [h1, hap.1, hap.2]
+  · rw [h2, hap.1, hap.2]
+
+/-- …and the neighbour lists it uses are those of the CURRENT particles whenever
+the history does not end in an in-place change that was not followed by
+`update()` or a rebinding. -/
+theorem neighbours_current (arrays : List Nat) (p : Nat) (ops : List Op) (last : Op)
+    (hops : ∀ op ∈ ops ++ [last], op.isInterp = true) (hlast : last.isMutate = false) :
+    (interpolateReads (run (init arrays p) (ops ++ [last]))).neighboursCurrent = true := by
+  have hb := run_bound (init arrays p) (ops ++ [last]) hops (init_spec arrays p).1
+  have hf : Fresh (run (init arrays p) (ops ++ [last])) := by
+    rw [run_append_singleton]; exact fresh_step _ _ hlast
+  simp only [interpolateReads, Bool.and_eq_true, decide_eq_true_eq]
+  exact ⟨hb.2.2, hf⟩
+
+theorem neighbours_current_after_construction (arrays : List Nat) (p : Nat) :
+    (interpolateReads (init arrays p)).neighboursCurrent = true := by
+  have h := init_spec arrays p
+  simp only [interpolateReads, Bool.and_eq_true, decide_eq_true_eq]
+  exact ⟨h.1.2.2, h.2.1⟩
+
+/-- `SPHEvaluator`: after any history of `update_particle_arrays` / `update` /
+in-place changes, `evaluate` reads and has binned exactly the arrays of the latest
+`update_particle_arrays` (or of the constructor). -/
+def lastEvalObjs (o0 : List Nat) : List Op → List Nat
+  | [] => o0
+  | Op.evalUpdateArrays objs :: rest => lastEvalObjs objs rest
+  | _ :: rest => lastEvalObjs o0 rest
+
+/-- the SPHEvaluator's own operations -/
+def isEvalOp : Op → Bool
+  | Op.evalUpdateArrays _ => true
+  | Op.update => true
+  | Op.mutate _ => true
+  | _ => false
+
+theorem evaluator_bindings_current (objs : List Nat) (ops : List Op)
+    (hops : ∀ op ∈ ops, isEvalOp op = true) :
+    let r := interpolateReads (run (initEval objs) ops)
+    r.evaluated = lastEvalObjs objs ops ∧ r.binned = lastEvalObjs objs ops := by
+  have gen : ∀ (s : IState) (o0 : List Nat), s.evalObjs = o0 → s.nnps.objs = o0 →
+      (run s ops).evalObjs = lastEvalObjs o0 ops ∧ (run s ops).nnps.objs = lastEvalObjs o0 ops := by
+    induction ops with
+    | nil => intro s o0 h1 h2; simp [run, lastEvalObjs, h1, h2]
+    | cons op rest ih =>
+      intro s o0 h1 h2
+      have hrest : ∀ op ∈ rest, isEvalOp op = true := fun o ho => hops o (by simp [ho])
+      simp only [run, List.foldl_cons]
+      cases op with
+      | evalUpdateArrays objs' =>
+        exact ih hrest (step s (Op.evalUpdateArrays objs')) objs'
+          (by simp [step, evalUpdateParticleArrays, createNnps])
+          (by simp [step, evalUpdateParticleArrays, createNnps])
+      | update =>
+        exact ih hrest (step s Op.update) o0 (by simpa [step, updateOp] using h1)
+          (by simpa [step, updateOp] using h2)
+      | mutate o =>
+        exact ih hrest (step s (Op.mutate o)) o0 (by simpa [step] using h1)
+          (by simpa [step] using h2)
+      | setPoints p => have := hops (Op.setPoints p) (by simp); simp [isEvalOp] at this
+      | updateArrays as => have := hops (Op.updateArrays as) (by simp); simp [isEvalOp] at this
+  have h := gen (initEval objs) objs (by simp [initEval, createNnps]) (by simp [initEval, createNnps])
+  simpa [interpolateReads] using h
+
+/-! ## non-vacuity: concrete neighbour lists / histories meeting the hypotheses -/
+
+/-- three neighbours, one with zero weight and an outlying value: the mean of
+the two contributing values 1 and 3 with weights 1/2, 1/4 is 5/3 ∈ [1, 3] -/
+example :
+    let nbrs : List (Nbr ℚ) :=
+      [⟨1/2, 0, 0, 0, 0, 0, 0, 1, 1, 1⟩, ⟨0, 0, 0, 0, 1, 0, 0, 1, 1, 100⟩,
+       ⟨1/4, 0, 0, 0, 2, 0, 0, 1, 1, 3⟩]
+    shepard (1/1000000000000) nbrs = 5/3 ∧
+    (∀ nb ∈ nbrs, 0 ≤ nb.w) ∧ (∀ nb ∈ nbrs, 0 < nb.w → (1:ℚ) ≤ nb.f ∧ nb.f ≤ 3) := by
+  refine ⟨by decide +kernel, ?_, ?_⟩
+  · intro nb h; simp at h; rcases h with rfl | rfl | rfl <;> norm_num
+  · intro nb h; simp at h; rcases h with rfl | rfl | rfl <;> norm_num
+
+/-- 1-D order1 on the affine field `2 + 3x` with three neighbours: the moment
+system's solution is (value, slope) = (2 + 3·(1/2), 3) -/
+example :
+    let nbrs : List (Nbr ℚ) :=
+      [⟨1, 1, 0, 0, 0, 0, 0, 1, 2, 2⟩, ⟨2, 0, 0, 0, 1/2, 0, 0, 1, 1, 7/2⟩,
+       ⟨1, -1, 0, 0, 1, 0, 0, 1, 2, 5⟩]
+    let d : Pos ℚ := ⟨1/2, 0, 0⟩
+    (∀ nb ∈ nbrs, nb.f = 2 + 3 * nb.sx + 0 * nb.sy + 0 * nb.sz) ∧
+    (order1 (1/1000000000000) 1 d nbrs).toList = [7/2, 3, 0, 0] := by
+  refine ⟨?_, by decide +kernel⟩
+  intro nb h; simp at h; rcases h with rfl | rfl | rfl <;> norm_num
+
+/-- a history with rebindings, an in-place change and an update -/
+example :
+    let ops := [Op.mutate 1, Op.update, Op.updateArrays [5, 6], Op.setPoints 9, Op.mutate 5]
+    interpolateReads (run (init [1, 2] 3) ops) =
+      ⟨[5, 6], [5, 6, 9], [5, 6, 9], 9, false⟩ ∧
+    interpolateReads (run (init [1, 2] 3) (ops ++ [Op.update])) =
+      ⟨[5, 6], [5, 6, 9], [5, 6, 9], 9, true⟩ := by
+  constructor <;> decide +kernel
+
+end PysphVerif.C14
